@@ -52,5 +52,34 @@ McStats explore(const Cfg& cfg, const std::vector<Op>& alphabet, int max_depth,
   st.distinct_obs = obs.size();
   return st;
 }
+
+// Stateless companion: every operation sequence of exactly `depth` steps is executed on a fresh world and every step
+// is compared with the oracle. No state matching is involved, so behaviour that depends on state the canonical key
+// does not know about (e.g. a member added later) is still reached within the depth bound.
+template <class World, class Cfg, class Op>
+McStats explore_stateless(const Cfg& cfg, const std::vector<Op>& alphabet, int depth,
+                          const std::function<std::string(const Op&)>& expected,
+                          const std::function<void(const std::vector<uint16_t>& hist, uint16_t op, const std::string& got, const std::string& want)>& on_mismatch,
+                          const std::function<void(const std::vector<uint16_t>& hist, uint16_t op)>& before_step) {
+  McStats st; const size_t n = alphabet.size();
+  std::vector<uint16_t> idx(depth, 0);
+  if (n == 0 || depth <= 0) return st;
+  while (true) {
+    World w(cfg);
+    std::vector<uint16_t> h;
+    for (int k = 0; k < depth; k++) {
+      before_step(h, idx[k]);
+      std::string got = w.apply(alphabet[idx[k]]); st.executions++; st.transitions++;
+      std::string want = expected(alphabet[idx[k]]);
+      if (got != want) { on_mismatch(h, idx[k], got, want); break; }
+      h.push_back(idx[k]);
+    }
+    st.states++;   // one complete history
+    int k = depth - 1; while (k >= 0 && ++idx[k] == n) { idx[k] = 0; k--; }
+    if (k < 0) break;
+  }
+  st.max_depth = depth; st.fixpoint = false;
+  return st;
+}
 }
 #endif
